@@ -1093,6 +1093,9 @@ func collectVars(t *Term, seen map[int32]bool, out map[string]*Term) {
 	for _, a := range t.Args {
 		collectVars(a, seen, out)
 	}
+	if t.Args2 != nil {
+		collectVars(t.Args2, seen, out)
+	}
 }
 
 func sortedVarNames(m map[string]*Term) []string {
